@@ -38,6 +38,32 @@ def stat(n, seed0):
         print(v, k, ex.get(k, [])[:6])
 
 
+def sweep(n, seed0, batch=2000):
+    """big run: every diverging program is saved (unshrunk) under build/c01dev/sweep/"""
+    impl, model = c01.build()
+    opnum = c01.opnum_table()
+    outd = os.path.join(vlib.VERIF, 'build', 'c01dev', 'sweep')
+    os.makedirs(outd, exist_ok=True)
+    cats = Counter()
+    t0 = time.time()
+    for b0 in range(seed0, seed0 + n, batch):
+        progs = [c01.G.gen_program(random.Random(b0 + i), OPTS) for i in range(min(batch, seed0 + n - b0))]
+        mo = c01.run_model_parallel(model, [p.model_line(opnum, c01.MODEL_FUEL) for p in progs])
+        ok = [i for i, x in enumerate(mo) if x.startswith('OK')]
+        eng = c01.run_impl_parallel(impl, [progs[i].harness_line(c01.ENGINES) for i in ok])
+        for i, e in zip(ok, eng):
+            cat = c01.classify(mo[i], e)
+            if cat:
+                cats[cat] += 1
+                json.dump(dict(seed=b0 + i, cat=cat, features=sorted(progs[i].features),
+                               **c01.replay_obj(progs[i], opnum, c01.ENGINES, mo[i], e)),
+                          open(os.path.join(outd, '%d.json' % (b0 + i)), 'w'))
+                print('HIT', b0 + i, cat, flush=True)
+        print('done %d programs in %.0fs, hits so far %d' % (b0 + len(progs) - seed0, time.time() - t0, sum(cats.values())), flush=True)
+    for k, v in cats.most_common():
+        print(v, k)
+
+
 def shrink(seed):
     impl, model = c01.build(); opnum = c01.opnum_table()
     p = c01.G.gen_program(random.Random(seed), OPTS)
@@ -83,6 +109,7 @@ if __name__ == '__main__':
     cmd = sys.argv[1]
     if cmd == 'stat': stat(int(sys.argv[2]), int(sys.argv[3]))
     elif cmd == 'shrink': shrink(int(sys.argv[2]))
+    elif cmd == 'sweep': sweep(int(sys.argv[2]), int(sys.argv[3]))
     elif cmd == 'corpus': corpus()
     elif cmd == 'replay': replay(sys.argv[2:])
     elif cmd == 'dbg': dbg(sys.argv[2], sys.argv[3])
